@@ -151,3 +151,56 @@ Definition match_jv (names : list (list N)) (mc : mrec * list mrec) : jv :=
   let '(m, caps) := mc in
   JObj [(k_captures, JArr (map (fun nc => capture_jv (fst nc) (snd nc)) (combine (tl names) caps)));
         (k_length, JInt (m_length m)); (k_offset, JInt (m_offset m)); (k_string, jstr (m_string m))].
+
+(* ------------------------------------------------------------------ splits and sub/gsub (hand transcriptions)
+
+   def splits($re; $flags):
+     .[foreach (match($re; $flags + "g"), null) as {$offset, $length}
+         (null; {start: .next, end: $offset, next: $offset + $length})];
+   the matches are given by their (offset, length); the trailing null closes the last piece *)
+Fixpoint splits_go (s : list N) (next : option Z) (ms : list (Z * Z)) : list (list N) :=
+  match ms with
+  | [] => [slice_string s next None]
+  | (o, l) :: r => slice_string s next (Some o) :: splits_go s (Some (o + l)) r
+  end.
+Definition splits (s : list N) (ms : list (Z * Z)) : list (list N) := splits_go s None ms.
+
+(* pieces interleaved with the matched strings: p0 m0 p1 m1 ... pn *)
+Fixpoint weave (ps ms : list (list N)) : list N :=
+  match ps, ms with
+  | p :: ps', m :: ms' => p ++ m ++ weave ps' ms'
+  | p :: _, [] => p
+  | [], _ => []
+  end.
+
+(* def sub($re; str; $flags):
+     reduce match($re; $flags) as {$offset, $length, $captures}
+       ({s: ., r: []};
+         reduce ($captures | _captures | str) as $s
+           (.i = 0; .r[.i] += .s[.next:$offset] + $s | .i += 1) |
+         .next = $offset + $length) | .r[] + .s[.next:] // .s;
+   with str producing ONE string per match (here: the text of a named group around the whole regex),
+   so only .r[0] is used: acc = .r[0] (None = null), next = .next *)
+Fixpoint sub_go (s : list N) (acc : option (list N)) (next : option Z) (ms : list (Z * Z * list N)) : list N :=
+  match ms with
+  | [] => match acc with None => s | Some a => a ++ slice_string s next None end
+  | (o, l, str) :: r =>
+      let add := slice_string s next (Some o) ++ str in
+      sub_go s (Some (match acc with None => add | Some a => a ++ add end)) (Some (o + l)) r
+  end.
+Definition sub_with (s : list N) (ms : list (Z * Z * list N)) : list N := sub_go s None None ms.
+
+(* what match reports for the whole matches: (offset, length, string) *)
+Definition whole (x : list Z) : Z * Z := hd (0, 0) (pairs_of x).
+Definition reported (s : list N) (xs : list (list Z)) : list (Z * Z * list N) :=
+  map (fun x => let m := conv_pair s (fst (whole x)) (snd (whole x)) in
+                (m_offset m, m_length m, sub_bytes s (Z.to_nat (fst (whole x))) (Z.to_nat (snd (whole x))))) xs.
+
+(* successive matches do not overlap and stay inside the subject (regexp.FindAll: "non-overlapping") *)
+Fixpoint ordered_from (prev : Z) (ps : list (Z * Z)) (stop : Z) : bool :=
+  match ps with
+  | [] => prev <=? stop
+  | (a, b) :: r => (prev <=? a) && (a <=? b) && ordered_from b r stop
+  end.
+Definition orderedb (s : list N) (xs : list (list Z)) : bool :=
+  ordered_from 0 (map whole xs) (Z.of_nat (length s)).
